@@ -2,6 +2,7 @@ package main
 
 import (
 	"fmt"
+	"os"
 	"strings"
 
 	"seehuhn.de/go/pdf/internal/filter/dct/jpeg"
@@ -193,6 +194,20 @@ func (h *H) progCases() {
 		o, ok := h.triple(c, false)
 		if ok && o.Class == "ok" {
 			h.fail("work-over-limit", "200 Mi pixel operations were carried out for a JBIG2 input of a few kilobytes", c, o)
+		}
+	}
+	// JBIG2: a referred-to list that names the same dictionary again and again, lists at the
+	// longest length the decoder admits, dictionaries re-exported through chains
+	if !h.aborted {
+		for _, cfg := range [][4]int{{16384, 400, 0, 0}, {65536, 8, 0, 0}, {300, 300, 3, 0}, {4, 40, 12, 0}, {16384, 400, 1, 1}} {
+			c := h.one("JBIG2Decode", parm{Kind: "null"}, jbig2RepeatedRefs(cfg[0], cfg[1], cfg[2], cfg[3] == 1),
+				fmt.Sprintf("jbig2: text region referring %d times to a dictionary of %d symbols (chain of %d, repeated inside the dictionary: %d)", cfg[0], cfg[1], cfg[2], cfg[3]))
+			c.Live = true
+			o, _ := h.triple(c, false)
+			if os.Getenv("VERIF_C08_DEBUG") != "" {
+				fmt.Fprintf(os.Stderr, "c08 debug: %s: %d raw bytes -> %s %q, %d out, TotalAlloc %d, live %d, %.1f ms\n",
+					c.Note, len(c.Body()), o.Class, o.Err, o.N, o.Alloc, o.Live, float64(o.DurNS)/1e6)
+			}
 		}
 	}
 	// JBIG2 analogue: thousands of tiny regions composited onto a page close to the budget
